@@ -33,8 +33,8 @@ Fixpoint index_byte_from (b : Z) (s : string) (off : Z) : option Z :=
   end.
 Definition index_byte (b : Z) (s : string) : option Z := index_byte_from b s 0.
 
-(* strconv.ParseInt(s, 16, 32): optional sign, then one or more of 0-9a-fA-F (no "0x" prefix and
-   no underscores with an explicit base); value must fit int32.  None = any error. *)
+(* strconv.ParseUint(s, 16, 32): one or more of 0-9a-fA-F (no sign, no "0x" prefix and no
+   underscores with an explicit base); the value must fit 32 bits.  None = any error. *)
 Fixpoint all_hex (s : string) : bool :=
   match s with
   | EmptyString => true
@@ -45,25 +45,18 @@ Definition parse_uint16 (s : string) : option Z :=
   | EmptyString => None
   | _ => if all_hex s then Z_of_hex s else None
   end.
-Definition parse_int16_32 (s : string) : option Z :=
-  match s with
-  | EmptyString => None
-  | String c r =>
-      let '(neg, digits) :=
-        if byte_of c =? ch "+" then (false, r)
-        else if byte_of c =? ch "-" then (true, r)
-        else (false, s) in
-      match parse_uint16 digits with
-      | None => None
-      | Some un =>
-          if neg then (if un >? 2147483648 then None else Some (- un))
-          else (if un >=? 2147483648 then None else Some un)
-      end
+Definition parse_uint16_32 (s : string) : option Z :=
+  match parse_uint16 s with
+  | None => None
+  | Some un => if un >=? 4294967296 then None else Some un
   end.
 
-(* func parseRune(hex string) rune *)
+(* func parseRune(hex string) rune : rune(n) of the uint64 n wraps to int32 *)
 Definition parseRune (hex : string) : rune :=
-  match parse_int16_32 hex with Some n => n | None => -1 end.
+  match parse_uint16_32 hex with
+  | Some n => if n >=? 2147483648 then n - 4294967296 else n
+  | None => -1
+  end.
 
 (* utf16.IsSurrogate / utf16.DecodeRune *)
 Definition utf16_is_surrogate (r : rune) : bool := (55296 <=? r) && (r <? 57344).
@@ -569,7 +562,7 @@ Definition parseObjectTransformation (t : token) : PM node :=
   do deletes <- (if tt_eqb ty typeComma then
                    consume typeComma true ;; do d <- pe 0; sret (Some d)
                  else sret None);
-  consume typePipe true ;;
+  consume typePipe false ;;
   sret (NTransform pattern updates deletes).
 
 (* var nuds = [...]nud{...} with lookupNud's bounds test *)
@@ -668,7 +661,7 @@ Definition parseLambdaDefinition (shorthand : bool) : PM node :=
                 else sret []);
   consume typeBraceOpen true ;;
   do body <- pe 0;
-  consume typeBraceClose true ;;
+  consume typeBraceClose false ;;
   if negb isTyped then sret (NLambda paramNames body shorthand)
   else sret (NTypedLambda paramNames body shorthand params).
 
@@ -682,7 +675,7 @@ Fixpoint parseArgsLoop (fuel : nat) (args : list node) (isPartial : bool)
   | S f =>
       do ty <- curType;
       do ap <- (if tt_eqb ty typePlaceholder then
-                  consume typePlaceholder true ;; sret (NPlaceholder, true)
+                  consume typePlaceholder false ;; sret (NPlaceholder, true)
                 else do a <- pe 0; sret (a, isPartial));
       let '(arg, isPartial) := ap in
       let args := (args ++ [arg])%list in
@@ -774,7 +767,7 @@ Fixpoint parseSortLoop (fuel : nat) (terms : list (sortdir * node)) : PM (list (
 Definition parseSort (t : token) (lhs : node) : PM node :=
   consume typeParenOpen true ;;
   do terms <- parseSortLoop lf [];
-  consume typeParenClose true ;;
+  consume typeParenClose false ;;
   sret (NSort lhs terms).
 
 Definition parseFunctionApplication (t : token) (lhs : node) : PM node :=
